@@ -112,7 +112,8 @@ func (obj *GeometricEstimator) updateEstimate() error {
   }
   // compute new parameter
   //////////////////////////////////////////////////////////////////////////////
-  p := NewScalar(obj.ScalarType(), math.Exp(sum_g - sum_m))
+  // x+1 >= 1 implies sum_m >= sum_g; rounding errors of LogAdd must not push p above one
+  p := NewScalar(obj.ScalarType(), math.Exp(math.Min(sum_g - sum_m, 0.0)))
 
   //////////////////////////////////////////////////////////////////////////////
   if t, err := scalarDistribution.NewGeometricDistribution(p); err != nil {
